@@ -97,11 +97,9 @@ Definition remove_nth {A} (i : nat) (l : list A) : list A := firstn i l ++ skipn
 
 Definition count {A} (p : A -> bool) (l : list A) : nat := length (filter p l).
 
-(* polynomial hash used to compare long outputs with the implementation (base 1000003, mod 2^61-1) *)
-Definition PH_P : N := 2305843009213693951.
-Definition PH_B : N := 1000003.
-(* x mod (2^61-1) for x < 2^122, by folding the high bits (Mersenne prime): same value as [x mod PH_P] *)
-Definition mod_p61 (x : N) : N :=
-  let y := N.land x PH_P + N.shiftr x 61 in
-  if PH_P <=? y then y - PH_P else y.
-Definition poly_hash (l : bytes) : N := fold_left (fun h x => mod_p61 (h * PH_B + x + 1)) l 0.
+(* hash used to compare long outputs with the implementation: h' = (33 * h + x + 1) mod 2^64.
+   Only land/mul-by-a-small-constant/add: N.modulo and wide multiplications are orders of magnitude
+   slower under vm_compute (binary positive arithmetic). *)
+Definition PH_MASK : N := 18446744073709551615.
+Definition PH_B : N := 33.
+Definition poly_hash (l : bytes) : N := fold_left (fun h x => N.land (PH_B * h + x + 1) PH_MASK) l 0.
